@@ -1028,3 +1028,250 @@ def fam_train(rng, n, tier, mode="exact", forward_only=False):
 
 FAMILIES.update({"dag": fam_dag, "customlog": fam_customlog, "history": fam_history, "release": fam_release,
                  "optim": fam_optim, "train": fam_train})
+
+
+# ---------------------------------------------------------------- metamorphic families
+
+def rename_lines(lines, names, prefix):
+    out = []
+    for l in lines:
+        toks = l.split(" ")
+        new = []
+        for t in toks:
+            parts = t.split(",")
+            new.append(",".join((prefix + x) if x in names else x for x in parts))
+        out.append(" ".join(new))
+    return out
+
+
+OPS_WITH_ARGS = {"add": (2, 3), "sub": (2, 3), "mul": (2, 3), "div": (2, 3), "neg": (2,), "scale": (2,), "powf": (2,),
+                 "relu": (2,), "sigmoid": (2,), "exp": (2,), "softmax": (2,), "sum": (2,), "reshape": (2,),
+                 "matmul": (2, 4, 6)}
+
+
+def build_program(rng, mode, nops, allow_cop=True):
+    p = Prog(rng, mode)
+    for _ in range(rng.randint(2, 3)):
+        p.new_leaf()
+    for _ in range(nops):
+        x = rng.random()
+        if x < 0.55:
+            p.op_binary()
+        elif x < 0.85:
+            p.op_unary()
+        elif x < 0.93 or not allow_cop:
+            p.op_matmul() or p.op_binary()
+        else:
+            p.op_cop()
+    return p
+
+
+def fam_transparent(rng, n, tier, mode="exact"):
+    """C12: a program and an edited twin (operands replaced by clones, handles dropped after their last
+    use, variables re-bound, the pass started from a clone); all observable results must coincide"""
+    cases = []
+    for i in range(n):
+        p = build_program(rng, mode, rng.randint(2, 10 if tier == "quick" else 16))
+        root = rng.choice(sorted(p.inter & set(p.shape)) or p.names())
+        names = set(p.shape)
+        base = list(p.L)
+        seed_vals = vals_s(gen_vals(rng, prod(p.shape[root]), mode), mode)
+        seeded = rng.random() < 0.6
+        orig = base + (["new seed0 %s %s" % (dims_s(p.shape[root]), seed_vals), "backward %s seed0" % root] if seeded
+                       else ["backward %s -" % root])
+        # the twin: same text with renamed variables, then edited
+        twin = rename_lines(base, names, "z")
+        edited = []
+        kinds = set()
+        cl = 0
+        last_use = {}
+        for j, l in enumerate(twin):
+            for t in l.replace(",", " ").split(" ")[1:]:
+                last_use[t] = j
+        live = set()
+        dropped = set()
+        for j, l in enumerate(twin):
+            toks = l.split(" ")
+            if toks[0] in OPS_WITH_ARGS and rng.random() < 0.5:
+                pos = rng.choice(OPS_WITH_ARGS[toks[0]])
+                if pos < len(toks) and toks[pos] in live:
+                    cl += 1
+                    c = "zq%d" % cl
+                    edited.append("clone %s %s" % (c, toks[pos]))
+                    toks[pos] = c
+                    kinds.add("clone")
+                    l = " ".join(toks)
+                    if rng.random() < 0.5:
+                        edited.append(l)
+                        edited.append("drop %s" % c)
+                        live.add(toks[1])
+                        continue
+            edited.append(l)
+            if toks[0] not in ("tracked", "untracked"):
+                live.add(toks[1])
+            # drop a handle once the program no longer names it
+            for v in sorted(live - dropped):
+                if last_use.get(v, -1) == j and v != "z" + root and v[1:] in p.inter and rng.random() < 0.5:
+                    edited.append("drop %s" % v)
+                    dropped.add(v)
+                    kinds.add("drop")
+        zr = "z" + root
+        if rng.random() < 0.5:
+            edited.append("move zmoved %s" % zr)
+            edited.append("move %s zmoved" % zr)
+            kinds.add("rebind")
+        start = zr
+        if rng.random() < 0.5:
+            edited.append("clone zstart %s" % zr)
+            start = "zstart"
+            kinds.add("clonestart")
+        edited += (["new zseed0 %s %s" % (dims_s(p.shape[root]), seed_vals), "backward %s zseed0" % start] if seeded
+                   else ["backward %s -" % start])
+        L = orig + edited
+        for v in sorted(names):
+            if ("z" + v) not in dropped:
+                L.append("same %s z%s" % (v, v))
+                L.append("samegrad %s z%s" % (v, v))
+                L.append("grad %s" % v)
+        # a gradient deposited through any clone is visible through every other clone
+        lf = sorted(p.leaf & set(p.shape))
+        if lf:
+            v = rng.choice(lf)
+            L += ["clone zz1 %s" % v, "clone zz2 zz1", "samegrad zz2 %s" % v, "drop %s" % v, "grad zz1", "samegrad zz1 zz2"]
+        cases.append(Case(L, ("tr", i, tuple(sorted(kinds)), dag_key(p)), sorted(kinds) + ["seeded" if seeded else "ones"], mode,
+                          nontrivial=bool(kinds)))
+    return cases
+
+
+def fam_linear(rng, n, tier, mode="exact"):
+    """C17: three fresh instances of a program run with s1, s2 and alpha*s1 + beta*s2 (`lin` compares
+    alpha*g(s1) + beta*g(s2) with g(alpha*s1 + beta*s2) cell by cell), and a fourth pair comparing an
+    omitted seed with explicit ones"""
+    out = []
+    for i in range(n):
+        p = build_program(rng, mode, rng.randint(1, 9 if tier == "quick" else 14))
+        root = rng.choice(sorted(p.inter & set(p.shape)) or p.names())
+        names = set(p.shape)
+        cnt = prod(p.shape[root])
+        s1 = ints(rng, cnt, -3, 3)
+        s2 = ints(rng, cnt, -3, 3)
+        al, be = rng.randint(-3, 3), rng.randint(-3, 3)
+        s3 = [al * x + be * y for x, y in zip(s1, s2)]
+        L = []
+        for pre, sv in (("a_", s1), ("b_", s2), ("c_", s3)):
+            L += rename_lines(p.L, names, pre)
+            L.append("new %sseed %s %s" % (pre, dims_s(p.shape[root]), vals_s(sv, mode)))
+            L.append("backward %s%s %sseed" % (pre, root, pre))
+        for v in sorted(names):
+            L.append("grad c_%s" % v)
+            L.append("lin c_%s %s a_%s %s b_%s" % (v, sc(al, mode), v, sc(be, mode), v))
+        # omitted seed == ones
+        L += rename_lines(p.L, names, "d_")
+        L += rename_lines(p.L, names, "e_")
+        L.append("new e_seed %s %s" % (dims_s(p.shape[root]), vals_s([1] * cnt, mode)))
+        L.append("backward d_%s -" % root)
+        L.append("backward e_%s e_seed" % root)
+        for v in sorted(names):
+            L.append("samegrad d_%s e_%s" % (v, v))
+        out.append(Case(L, ("lin", i, al, be, dag_key(p)), ["alpha%d" % al, "beta%d" % be], mode,
+                        nontrivial=(al != 0 or be != 0)))
+    return out
+
+
+def fam_flags(rng, n, tier, mode="exact"):
+    """C09: every tracked / untracked assignment of the operands of every operation, through
+    tracked(), untracked(), start/stop_tracking on handles and on clones; repeated passes"""
+    cases = []
+    binops = ["add", "sub", "mul"] + (["div"] if mode != "exact" else [])
+    unops = ["neg", "relu", "scale", "powf", "sum", "reshape"] + (["exp", "ln", "sigmoid", "recip", "softmax"] if mode != "exact" else [])
+
+    def leaf(L, nm, dims, how):
+        L.append("new %s %s %s" % (nm, dims_s(dims), vals_s(gen_vals(rng, prod(dims), mode, "pos"), mode)))
+        if how == "tracked":
+            L.append("tracked %s" % nm)
+        elif how == "start":
+            L.append("start %s" % nm)
+        elif how == "tracked-stop":
+            L += ["tracked %s" % nm, "stop %s" % nm]
+        elif how == "untracked":
+            L.append("untracked %s" % nm)
+        elif how == "clone-tracked":
+            L += ["clone %s_c %s" % (nm, nm), "tracked %s_c" % nm, "show %s" % nm, "start %s" % nm, "stop %s" % nm]
+        return how in ("tracked", "start")
+
+    hows = ["plain", "tracked", "start", "tracked-stop", "untracked", "clone-tracked"]
+    for op in binops:
+        for ha in hows:
+            for hb in hows:
+                L = []
+                ta = leaf(L, "a", [2, 2], ha)
+                tb = leaf(L, "b", [2], hb)
+                L.append("%s r a b" % op)
+                L += ["probekid r 0", "probekid r 1", "probe r"]
+                if not (ta or tb):
+                    # an untracked result keeps no reference to its operands
+                    L += ["probe a", "own b"]
+                else:
+                    L += ["backward r -", "grad a", "grad b", "grad r", "probekid r 0", "probekid r 1",
+                          "start a", "stop a" if not ta else "start a", "stop b", "start b" if tb else "stop b",
+                          "backward r -", "grad a", "grad b"]
+                cases.append(Case(L, ("fl2", op, ha, hb), [op, "flags"], mode, nontrivial=(ha != hb)))
+    for op in unops:
+        for ha in hows:
+            L = []
+            ta = leaf(L, "a", [2, 2], ha)
+            arg = {"scale": " " + sc(2, mode), "powf": " " + sc(2, mode), "sum": " 1", "reshape": " 4"}.get(op, "")
+            L.append("%s r a%s" % (op, arg))
+            L += ["probekid r 0", "probe r"]
+            if not ta:
+                L += ["probe a"] + (["own a"] if op != "reshape" else [])
+            else:
+                L += ["backward r -", "grad a", "grad r", "start a", "probekid r 0"]
+            cases.append(Case(L, ("fl1", op, ha), [op, "flags"], mode))
+    # matmul with the additive term, all 8 assignments
+    for fa in (0, 1):
+        for fb in (0, 1):
+            for fc in (0, 1):
+                L = []
+                leaf(L, "a", [2, 3], "tracked" if fa else "plain")
+                leaf(L, "b", [3, 2], "tracked" if fb else "plain")
+                leaf(L, "c", [2], "tracked" if fc else "plain")
+                L += ["matmul r a N b N c", "probe r", "probekid r 2"]
+                if fa or fb or fc:
+                    L += ["backward r -", "grad a", "grad b", "grad c"]
+                else:
+                    L += ["own a", "own b", "own c"]
+                cases.append(Case(L, ("flmm", fa, fb, fc), ["matmul", "flags"], mode, nontrivial=(fa + fb + fc in (1, 2))))
+    # nothing flows through an untracked intermediate; flags survive passes; gradients are plain arrays
+    for _ in range(n):
+        p = Prog(rng, mode)
+        a = p.new_leaf(tracked=True)
+        b = p.new_leaf(tracked=True)
+        y = p.op_binary(a=a, b=p.pick_compat(a))
+        how = rng.choice(["untracked", "stop", "clone-untracked", "keep"])
+        if how == "untracked":
+            p.emit("untracked %s" % y); p.tr[y] = False
+        elif how == "stop":
+            p.emit("stop %s" % y); p.tr[y] = False
+        elif how == "clone-untracked":
+            p.emit("clone yc %s" % y); p.emit("untracked yc")
+            p.shape["yc"] = list(p.shape[y]); p.tr["yc"] = False
+            y = "yc"
+        z = p.op_binary(a=y, b=p.pick_compat(y))
+        for _ in range(rng.randint(0, 4)):
+            p.random_op()
+        p.backward(z)
+        p.read_all()
+        for v in p.names():
+            p.emit("start %s" % v)
+            p.emit("stop %s" % v) if not p.tr[v] else None
+        g = p.fresh("t")
+        p.emit("takegrad %s %s" % (g, z))
+        p.emit("flags %s" % g)          # tr=0 keep=0 kids=0: a plain array
+        p.backward(z)
+        p.read_all(probes=False)
+        cases.append(Case(p.L, ("flp", how, dag_key(p)), ["through-" + how], mode))
+    return cases
+
+
+FAMILIES.update({"transparent": fam_transparent, "linear": fam_linear, "flags": fam_flags})
